@@ -1225,11 +1225,9 @@ impl<'a> FieldEntry<'a> {
         }
     }
     fn make_ident(&self, prefix: &str) -> Ident {
-        if let Some(ident) = &self.field.ident {
-            format_ident!("__{}_{}", prefix, ident)
-        } else {
-            format_ident!("__{}_{}", prefix, self.index)
-        }
+        // By position, not by name: a field called `_marker` would give `___self__marker`,
+        // which is not snake case (and `marker` next to `_marker` must not collide).
+        format_ident!("__{}_{}", prefix, self.index)
     }
     fn push_bounds_to(&self, use_bounds: bool, kind: DeriveItemKind, wcb: &mut WhereClauseBuilder) {
         if self.hattrs.push_bounds_to(use_bounds, kind, wcb) {
